@@ -182,7 +182,7 @@ CHECKS = {
              "For the deriving operations themselves (Props/C12B): the document returned by flattened()/unified() in a well-formed heap "
              "holds the manager cell allocated by the call, which no earlier container references (StableMgr through every step), so any "
              "mutation sequence on the result leaves every earlier cell unchanged (c12_flattened_independent, c12_unified_independent). "
-             "Derive->mutate->observe histories on the real objects for 11 deriving operations x 7 mutators, both directions.",
+             "Derive->mutate->observe histories on the real objects for 11 deriving operations x 7 mutators, both directions. Props/C12C: the well-formedness premise is an invariant of every history - reachAny_wfMgr: in every state the public interface can produce (mutators and deriving operations in any order, any arguments) every container refers to an allocated manager cell - so the independence of the documents returned by unified() / flattened() holds of every reachable state with no hypothesis left (c12_unified_independent_reach, c12_flattened_independent_reach).",
         note=A_COMMON + " Aliasing below record granularity (shared attribute sets) is not expressible in the heap model; it is exposed by the "
              "non-interference oracle and as a correspondence difference.",
         technique="Lean 4 frame/separation proofs over a heap model + non-interference oracle on real objects",
